@@ -60,7 +60,7 @@ def run(ctx):
         ctx.cov["traces_validated_against_impl"] += 1
         classes[c["class"]] = classes.get(c["class"], 0) + 1
         bad = judge(rec)
-        if bad:
+        if bad and not ctx.enough():
             again = [x for x in vlib.run_harness(ctx, binary, cases=[c]) if "seed" in x][0]
             bad2 = judge(again)
             if bad2:
